@@ -144,7 +144,7 @@ def run_one(args):
         props = [f"C{n:02d}" for n in range(1, 20)]
     for prop in props:
         t0 = time.time()
-        r = subprocess.run(["/verif/tools/with_src.sh", d + "/src", "check", "--property", prop], env=env, capture_output=True, text=True)
+        r = subprocess.run([os.environ.get("VERIF_DIR", "/verif") + "/tools/with_src.sh", d + "/src", "check", "--property", prop], env=env, capture_output=True, text=True)
         viol = [l for l in r.stdout.splitlines() if l.startswith("VIOLATION")]
         out['results'][prop] = dict(exit=r.returncode, violations=len(viol), secs=round(time.time() - t0, 1),
                                     msg=(next((l for l in r.stderr.splitlines() if l.startswith('[' + prop + ':')), '')[:300]))
